@@ -246,19 +246,21 @@ impl ServerInner {
             } => {
                 self.stopping = true;
 
-                // Signal accept thread to stop.
-                // Signal is non-blocking; we wait for thread to stop later.
-                self.waker_queue.wake(WakerInterest::Stop);
-
-                #[cfg(actix_net_verif)]
-                crate::verif::stop_gap();
-
-                // send stop signal to workers
+                // Send stop signal to workers first: a worker must find the stop message when it
+                // notices that its connection queue was closed by the exiting accept thread,
+                // otherwise it would quit at once and take its connections with it.
                 let workers_stop = self
                     .worker_handles
                     .iter()
                     .map(|worker| worker.stop(graceful))
                     .collect::<Vec<_>>();
+
+                #[cfg(actix_net_verif)]
+                crate::verif::stop_gap();
+
+                // Signal accept thread to stop.
+                // Signal is non-blocking; we wait for thread to stop later.
+                self.waker_queue.wake(WakerInterest::Stop);
 
                 if graceful {
                     // wait for all workers to shut down
